@@ -2,7 +2,7 @@
    produced by vlib/gencode.py from the real generated code's output).  Definitions only. *)
 From Coq Require Import List String ZArith Bool Ascii.
 From Cog Require Export Model.IR Model.Json Model.GoSemBase Model.GoSemDecode Model.GoSemEquals
-  Model.GoSemValidate Model.GoSemStrict.
+  Model.GoSemValidate Model.GoSemStrict Model.GoSemSpec.
 Import ListNotations.
 Local Open Scope list_scope.
 Local Open Scope string_scope.
@@ -16,11 +16,14 @@ Fixpoint ty_supported (ctx : schemas) (t : ty) : bool :=
   | TArray _ v => ty_supported ctx v
   | TMap _ i v => (match i with TScalar _ KString _ _ => true | _ => false end && ty_supported ctx v)%bool
   | TStruct _ _ fs => forallb (fun f => ty_supported ctx (f_type f)) fs
-  | TEnum _ vs => match enum_base vs with
+  | TEnum _ vs => negb (t_nullable t) && match enum_base vs with
                   | TScalar _ (KString | KInt64 | KInt32 | KInt16 | KInt8 | KUint8 | KUint16 | KUint32 | KUint64) _ _ => true
                   | _ => false end
-  | TRef _ _ _ | TConstRef _ _ _ _ =>
+  | TRef _ _ _ =>
       match payload_type ctx t with PTy _ => true | PUnm _ => false end
+  | TConstRef _ _ _ _ =>
+      (* a nullable constant reference is printed as a non-pointer compared with nil: does not compile *)
+      (negb (t_nullable t) && match payload_type ctx t with PTy (TEnum _ _) => true | _ => false end)%bool
   | _ => false
   end.
 
@@ -180,3 +183,24 @@ Definition mm_equals (c : gcase) : bool :=
   let '(ctx, p, n, docs, obs, mat) := c in
   (negb (case_unmodelled c) &&
    negb (matrix_eqb (model_eq_matrix ctx p n (map (decode_object ctx p n) docs ++ map (strict_object ctx p n) docs)) mat))%bool.
+
+(* ---------- sanity of the specifications on real data (evaluated by the correspondence) ---------- *)
+Definition ok_values (ctx : schemas) (p n : string) (docs : list json) : list gval :=
+  flat_map (fun d => match decode_object ctx p n d with GOk v => [v] | _ => [] end) docs ++
+  flat_map (fun d => match strict_object ctx p n d with GOk v => [v] | _ => [] end) docs.
+
+(* a decoded value that is not well-typed *)
+Definition mm_wt (c : gcase) : bool :=
+  let '(ctx, p, n, docs, obs, mat) := c in
+  (negb (case_unmodelled c) && negb (forallb (wt ctx (TRef attrs0 p n)) (ok_values ctx p n docs)))%bool.
+
+(* a pair of decoded values on which Equals differs from the reference equality although keys are aligned,
+   or reference-equal values whose encodings differ after erasing empties *)
+Definition mm_spec (c : gcase) : bool :=
+  let '(ctx, p, n, docs, obs, mat) := c in
+  let vs := ok_values ctx p n docs in
+  let t := TRef attrs0 p n in
+  (negb (case_unmodelled c) &&
+   existsb (fun a => existsb (fun b =>
+     ((keys_aligned a b && negb (Bool.eqb (eqc ctx t false a b) (vsim a b))) ||
+      (vsim a b && negb (json_eqb (erase_empty (encode ctx t a)) (erase_empty (encode ctx t b)))))%bool) vs) vs)%bool.
